@@ -320,7 +320,7 @@ def run(ctx):
         good = False
         if ret.k == "call" and (ret.a[0].endswith("::or_else") or ret.a[0].endswith("::or")):
             first, second = ret.a[1][0], ret.a[1][1]
-            first_user = any(x.k == "field" and x.a[1] == "user_autocorrect" for x in first.walk()) and not contains_call(first, lambda n: n.startswith("data::"))
+            first_user = any(x.k == "field" and x.a[1] == _ph.roles(prog)["user_autocorrect"] for x in first.walk()) and not contains_call(first, lambda n: n.startswith("data::"))
             second_bundled = False
             sx = strip_refs(second)
             if sx.k == "agg" and sx.a[0].startswith("closure:"):
@@ -430,9 +430,18 @@ def run(ctx):
             r4.violation("equality", "Rank equality is %r — duplicate suppression needs text-only equality" % (ret,), common.fn_line(prog, eqf[0]))
     else:
         r4.undecidable("equality", "impl PartialEq for Rank not found uniquely")
+    # the function that fills the memo (its forwarded pushes are the dictionary / suffix items): found by role — it inserts into the memo field
+    from . import phonetic as _ph
+    _R = _ph.roles(prog)
+    fill_fns = set()
+    for k_, f_ in prog.fns.items():
+        if ((f_.get("impl") or {}).get("self") or "") == _R["sug_ty"] and f_.get("kind") != "Closure":
+            b_ = prog.body(k_)
+            if any(callee_name(t_).endswith("::insert") and "HashMap" in callee_name(t_) and self_path(b_.expr_operand(t_["args"][0])) == (_R["memo"],) for (_, t_) in b_.calls()):
+                fill_fns.add(k_)
     for p in events:
         src = classify_source(prog, p) if p.item is not None else None
-        fwd = p.item is None and p.kind in ("push", "push_checked") and "suggestion_with_dict" in p.fn
+        fwd = p.item is None and p.kind in ("push", "push_checked") and p.fn in fill_fns
         if src in ("transliteration",) or fwd:
             key = "%s@%s" % (src or "dictionary/suffix", p.fn.split("::")[-1])
             if p.kind == "push_checked":
